@@ -122,12 +122,14 @@ AdlerBytes(acc) == <<acc[2] \div 256, acc[2] % 256, acc[1] \div 256, acc[1] % 25
 (*   why   reject reason                                                   *)
 (*   ob    output bytes (Produce mode only; <<>> in Verify mode)           *)
 (*   plen  length of the expected plaintext (Verify mode): p[1..plen]      *)
+(*   ignadler  the zlib trailer must be present but is not compared        *)
+(*   cap   Produce mode gives up ("capped") once more than cap bytes exist *)
 
-Terminal(a) == a.ph \in {"done", "rej", "starved", "mismatch"}
+Terminal(a) == a.ph \in {"done", "rej", "starved", "mismatch", "capped"}
 
-AccInit(zlib, produce, cuts, plen) ==
+AccInit(zlib, produce, cuts, plen, ignadler, cap) ==
   [ph |-> IF zlib THEN "zhdr" ELSE "bhdr", pos |-> 0, out |-> 0, fin |-> FALSE,
-   zlib |-> zlib, produce |-> produce, why |-> "", ob |-> <<>>, plen |-> plen,
+   zlib |-> zlib, produce |-> produce, why |-> "", ob |-> <<>>, plen |-> plen, ignadler |-> ignadler, cap |-> cap,
    tl |-> FixedLit, td |-> FixedDist, hlit |-> 0, hdist |-> 0, hclen |-> 0,
    tc |-> FixedDist, lens |-> <<>>, btype |-> 0,
    cmf |-> 0, flg |-> 0, endbyte |-> 0,
@@ -312,12 +314,13 @@ StepTrailer(a, z, p) ==
      ELSE IF Len(z) - bp < 4 THEN Starve([a EXCEPT !.pos = 8 * bp])
      ELSE IF ~a.produce /\ a.out # a.plen THEN Mism(a, "shorter_than_expected")
      ELSE LET ad == AdlerSeq(AdlerInit, IF a.produce THEN a.ob ELSE SubSeq(p, 1, a.plen))
-          IN IF SubSeq(z, bp + 1, bp + 4) # AdlerBytes(ad) THEN Rej(a, "adler")
+          IN IF ~a.ignadler /\ SubSeq(z, bp + 1, bp + 4) # AdlerBytes(ad) THEN Rej(a, "adler")
              ELSE [a EXCEPT !.ph = "done", !.endbyte = bp + 4, !.pos = 8 * (bp + 4),
                             !.lastwhat = "Trailer"]
 
 Step(a, z, p) ==
-  CASE a.ph = "zhdr"    -> StepZhdr(a, z)
+  CASE a.produce /\ a.out > a.cap -> [a EXCEPT !.ph = "capped", !.lastwhat = "Capped"]
+    [] a.ph = "zhdr"    -> StepZhdr(a, z)
     [] a.ph = "bhdr"    -> StepBhdr(a, z)
     [] a.ph = "stored"  -> StepStored(a, z, p)
     [] a.ph = "dyn"     -> StepDyn(a, z)
